@@ -168,6 +168,7 @@ class BaseModelCrossSet(BaseModel):
             use_pca=use_pca[0],
             sample_name=sample_name,
             feature_name=feature_name[0],
+            random_state=random_state,
         )
 
         self.pca2 = PCA(
@@ -176,6 +177,7 @@ class BaseModelCrossSet(BaseModel):
             use_pca=use_pca[1],
             sample_name=sample_name,
             feature_name=feature_name[1],
+            random_state=random_state,
         )
 
         self.whitener1 = Whitener(
